@@ -1039,6 +1039,8 @@ class Fxp():
         if raw:
             if vdtype is not None:
                 self.vdtype = vdtype
+            elif np.iscomplexobj(self.val):
+                self.vdtype = complex   # (complex raw codes are read back as complex values)
         elif index is None or self.vdtype != complex or not np.iscomplexobj(self.val):
             self.vdtype = original_vdtype   # (a real element written into complex values leaves them complex)
 
